@@ -236,7 +236,7 @@ func BlockedDesc() string   { return "" }
 func HeldLocks() int        { return -1 }
 func HeldByMe() int         { return -1 }
 func GoroutineID() int      { return -1 }
-func LiveGoroutines() int   { return -1 }
+func LiveGoroutines() int   { return runtime.NumGoroutine() }
 func BytesLen(n int) []byte { return make([]byte, n) }
 
 // AllocBudget / AllocBudgetOff natively: bytes allocated in between (runtime.MemStats) must
